@@ -4,5 +4,5 @@ Require Import SQV.Model.Str SQV.Model.Escape SQV.Model.Literal SQV.Model.Derive
 Extraction Language OCaml.
 Set Extraction KeepSingleton.
 Extraction "model.ml"
-  escape_string dec_of_Z iden_prepare snake_case pascal_case must_be_valid_iden
+  escape_string dec_of_Z general_prepare snake_case pascal_case must_be_valid_iden
   unquoted as_str derived_prepare has_fast_prepare enum_def_variant_ident ty_ident unraw.
